@@ -298,6 +298,10 @@ func (r *Runner) Go(kind string, tok int, phase string) *Call {
 			c.Val, c.Err = r.CL.Block(r.ctx, tok)
 		case "blockretry":
 			c.Val, c.Err = r.CL.BlockRetry(r.ctx, tok)
+		case "blockbig":
+			var out string
+			out, c.Err = r.CL.BlockBig(r.ctx, tok, 4<<20)
+			c.Val = len(out)
 		case "block2":
 			// the same server method through another field of the proxy struct (another generated function)
 			c.Val, c.Err = r.CL.BlockRetry(r.ctx, tok)
@@ -391,7 +395,13 @@ type opt struct {
 }
 
 func newRunner(seed int64, delay int32, reconnect bool, extra ...jsonrpc.Option) (*Runner, jsonrpc.ClientCloser, context.CancelFunc, error) {
-	e, err := scen.NewEnv(seed, delay, jsonrpc.WithServerPingInterval(4*time.Millisecond))
+	return newRunnerPing(4*time.Millisecond, seed, delay, reconnect, extra...)
+}
+
+// newRunnerPing: like newRunner with the server's ping interval chosen by the scenario (4 ms, the default of the
+// scenarios, makes a server put hundreds of pings per second on the wire).
+func newRunnerPing(serverPing time.Duration, seed int64, delay int32, reconnect bool, extra ...jsonrpc.Option) (*Runner, jsonrpc.ClientCloser, context.CancelFunc, error) {
+	e, err := scen.NewEnv(seed, delay, jsonrpc.WithServerPingInterval(serverPing))
 	if err != nil {
 		return nil, nil, nil, err
 	}
